@@ -34,6 +34,19 @@ package types
 //@   requires tx != nil && tx.data.V != nil && tx.data.R != nil && tx.data.S != nil
 //@   ensures[C12] @range err == nil ==> 1 <= big(tx.data.R) && big(tx.data.R) < SECP_N && 1 <= big(tx.data.S) && big(tx.data.S) < SECP_N
 
+// Signer equality decides whether a cached sender may be reused: replay-protected signers are
+// equal exactly when their (unbounded) chain ids are equal; the others only to their own kind.
+//@ func EIP155Signer.Equal
+//@   requires s.chainId != nil && (typeis(s2, "types.EIP155Signer") ==> unbox(s2, "types.EIP155Signer").chainId != nil)
+//@   ensures[C12] @chainid result <==> typeis(s2, "types.EIP155Signer") && big(unbox(s2, "types.EIP155Signer").chainId) == big(s.chainId)
+//@   nopanic[C12]
+//@ func HomesteadSigner.Equal
+//@   ensures[C12] @kind result <==> typeis(s2, "types.HomesteadSigner")
+//@   nopanic[C12]
+//@ func FrontierSigner.Equal
+//@   ensures[C12] @kind result <==> typeis(s2, "types.FrontierSigner")
+//@   nopanic[C12]
+
 // ---- block.go: observers of an immutable block (trusted: pure functions of the block) ---------
 //@ func Block.Hash
 //@   trusted
